@@ -324,13 +324,18 @@ pub fn quiescent() {
         inuse.push(n.in_use_val as i64);
         writers += n.active_writers_val as i64;
     }
+    // which hand-over envelope every node offers (internal invariant: nobody shares one at a quiescent point)
+    let spaces: Vec<i64> = sched::with(|g| {
+        g.roles.rescan();
+        nodes.iter().rev().map(|n| g.roles.abs(crate::roles::VT::Env, n.space_offer_val, arc_swap::verif::Kind::Load).as_i64().unwrap_or(-3)).collect()
+    });
     let cnt: Vec<Value> = snap
         .iter()
         .filter(|s| s.2)
         .map(|s| json!([s.0, s.1 as i64]))
         .collect();
     let dead: Vec<i64> = snap.iter().filter(|s| !s.2).map(|s| s.0 as i64).collect();
-    sched::log(json!({"e": "q", "cnt": cnt, "dead": dead, "slots": slots, "busy": busy, "inuse": inuse, "wr": writers}));
+    sched::log(json!({"e": "q", "cnt": cnt, "dead": dead, "slots": slots, "busy": busy, "inuse": inuse, "wr": writers, "spaces": spaces}));
 }
 
 fn mk_src<S: Strategy<T>>(w: &Arc<Mutex<World<S>>>, s: &Src, parent: i64) -> T {
